@@ -70,7 +70,15 @@ def check_scat_forward(cfg, sizes, rnd):
         x = x * m
     if order == 1:
         if biort.endswith('_bp'):
-            return True, 'band-pass family: no reference pyramid in dtcwt for the rotationally symmetric filters (bounded tier skips)'
+            # no reference pyramid in dtcwt for the rotationally symmetric filters: shape, finiteness and non-negativity only
+            layer = _build64(ScatLayer, biort=biort, magbias=b, combine_colour=colour)
+            try:
+                z = layer(torch.tensor(x))
+            except Exception as e:
+                return False, 'ScatLayer %s raises %s: %s' % (biort, type(e).__name__, str(e)[:100])
+            nlow = 3 if colour else C
+            okf = bool(torch.isfinite(z).all()) and float(z[:, nlow:].min()) >= 0 and tuple(z.shape[2:]) == ((H + 1) // 2, (W + 1) // 2)
+            return okf, 'band-pass first-order layer: shape / finiteness / non-negativity only'
         layer = _build64(ScatLayer, biort=biort, magbias=b, combine_colour=colour)
         if cfg.get('eval_mode'):
             layer = torch.nn.Sequential(layer).eval()
@@ -86,7 +94,7 @@ def check_scat_forward(cfg, sizes, rnd):
         if float(z[:, (3 if colour else C):].min()) < 0:
             return False, 'negative magnitude channel'
         return True, 'ScatLayer %s colour=%s %dx%d ok' % (biort, colour, H, W)
-    qshift = cfg.get('qshift', 'qshift_a')
+    qshift = cfg.get('qshift', 'qshift_b_bp' if biort.endswith('_bp') else 'qshift_a')
     layer = _build64(ScatLayerj2, biort=biort, qshift=qshift, magbias=b, combine_colour=colour)
     if cfg.get('eval_mode'):
         layer = torch.nn.Sequential(layer).eval()
@@ -98,7 +106,8 @@ def check_scat_forward(cfg, sizes, rnd):
     if tuple(z.shape[2:]) != (He // 4, We // 4) or z.shape[1] != (49 * C if not colour else z.shape[1]):
         return False, 'ScatLayerj2 output shape %s for input %dx%d' % (tuple(z.shape), H, W)
     if colour and biort.endswith('_bp'):
-        return float(z[:, 15:].min()) >= 0 and float(z[:, 9:15].min()) >= 0, 'colour j2 band-pass: shape/non-negativity only (no reference pyramid)'
+        okf = bool(torch.isfinite(z).all()) and float(z[:, 15:].min()) >= 0 and float(z[:, 9:15].min()) >= 0
+        return okf, 'colour j2 band-pass: shape / finiteness / non-negativity only (no reference pyramid)'
     import dtcwt
     if colour:
         for n in range(2):
